@@ -70,7 +70,9 @@ CLAIMED = {
          'hour angle / fractional year, a machine-checked counterexample to the full property for the code as it stands, and a '
          'lower bound of 21 degrees on the hour-angle error at the Singapore header for every instant. The property is FALSE of '
          'the code (known finding, pinned by tests); the check passes only while the real routine equals the as-coded model '
-         'exactly (KNOWN-FINDING) or the NOAA model (repaired), and reports any other deviation as a violation.',
+         'exactly (KNOWN-FINDING) or the NOAA model (repaired), and reports any other deviation as a violation. The site itself is '
+         'modelled (Model/EpwHeader: latitude, longitude, time zone = cells 6..8 of the LOCATION line, nothing else) and tied '
+         'exactly to the real _read_epw.',
          'Trusted: Lean kernel, standard axioms, Mathlib trigonometry, fracexec + stub table; the NOAA specification I wrote. '
          'Agreement with the radiation columns of data files is measured, not proved.', 'DESIGN.md section 4 C12'),
  'C13': ('Lean 4 theorems over every ordered field (and over the reals for sqrt/trig facts) about a symbol-generic model of '
@@ -132,7 +134,9 @@ CLAIMED = {
          'record n is taken at it*dt = 3600(n+1) from row n, exactly 24*days records exist with no index error, record n is written '
          'to the row stamped start+n hours, and the recorded wind is max(rural wind, minimum wind). The float formula replaced by '
          'the repair is proved wrong at dt=48, it=525. The tie runs the real loop with the physics stubbed for all 45 divisors and '
-         'full real runs incl. write_epw.',
+         'full real runs incl. write_epw. The source of every record is modelled too: Weather.__init__ + str2fl (Model/Weather) '
+         'with theorems that record i is a function of the ten modelled cells of row HI+i, that its humidity is '
+         'hum_from_rhum_temp of that row, and that a later row cannot change an earlier record; tied exactly to the real class.',
          'Trusted: Lean kernel (core only); stubbing of the physics in harness/simdriver.py (the physics cannot influence time, '
          'row selection or recording - checked by un-stubbed runs).', 'DESIGN.md section 4 C02'),
  'C03': ('Lean 4 theorems about the whole simulate loop with an arbitrary (uninterpreted) physics step, built on the proved '
@@ -142,9 +146,12 @@ CLAIMED = {
          'ground temperatures), longer windows extend shorter ones, rows outside the window and unmodelled columns are irrelevant, '
          'and with fewer than three ground depths the window mean is the only extra dependence. The model of the loop is checked '
          'against the real simulate with a toy physics that folds everything a step may read; paired real runs compare records '
-         'and written rows bit for bit.',
-         'Trusted: Lean kernel (core only). Assumption: the real physics step reads only its state, the current forcing row, the '
-         'clock and the deep temperatures - checked syntactically (footprint scan) and by paired runs, not proved.',
+         'and written rows bit for bit. The theorems are instantiated at the CONCRETE physics: Model/Step composes the tied '
+         'kernel models (solar, SurfFlux, vdm, urbflux with BEMCalc, UCModel, ublmodel, record) into the whole loop body, and the '
+         'real loop body is tied to it exactly (complete post-state) on small configurations.',
+         'Trusted: Lean kernel, standard axioms. That the real loop body equals the composed Step.step is an exact tie on small '
+         'configurations for one or two passes (exact rationals explode beyond), supported by the footprint scan and by paired '
+         'full runs; libm symbols uninterpreted.',
          'DESIGN.md section 4 C03'),
  'C10': ('Lean 4 theorems on the same loop model (complete records on return, refusal of non-dividing timesteps, bounds '
          'preserved through records, zero-load arithmetic) plus watchdog-guarded execution of the real reader and simulations',
